@@ -29,7 +29,8 @@ from simkit.shrink import shrink
 from simkit.world import InvalidScenario
 
 DEFAULT_SEED = {"quick": 20260921, "thorough": 20260922}
-PER_RUN_TIMEOUT_S = 90.0
+PER_RUN_TIMEOUT_S = 120.0   # CPU seconds (ITIMER_PROF): machine load must not turn into a harness error
+PER_RUN_WALL_BACKSTOP_S = 900.0
 
 
 class RunTimeout(Exception):
@@ -51,7 +52,9 @@ def _alarm(signum, frame):
 def safe_run(mod, sc: dict, timeout: float = PER_RUN_TIMEOUT_S) -> dict:
     """Run one scenario; classify harness trouble apart from verdicts."""
     old = signal.signal(signal.SIGALRM, _alarm)
-    signal.setitimer(signal.ITIMER_REAL, timeout)
+    oldp = signal.signal(signal.SIGPROF, _alarm)
+    signal.setitimer(signal.ITIMER_REAL, PER_RUN_WALL_BACKSTOP_S)
+    signal.setitimer(signal.ITIMER_PROF, timeout)
     try:
         res = mod.run(sc)
     except InvalidScenario:
@@ -61,8 +64,10 @@ def safe_run(mod, sc: dict, timeout: float = PER_RUN_TIMEOUT_S) -> dict:
     except Exception:  # harness bug (checks convert repo exceptions themselves)
         res = {"sig": None, "harness": "exception", "msg": traceback.format_exc(limit=12)}
     finally:
+        signal.setitimer(signal.ITIMER_PROF, 0)
         signal.setitimer(signal.ITIMER_REAL, 0)
         signal.signal(signal.SIGALRM, old)
+        signal.signal(signal.SIGPROF, oldp)
     for k, v in (("digest", ""), ("nontrivial", False), ("counters", {}), ("sim_s", 0.0),
                  ("deliveries", 0), ("klass", "default"), ("state", None), ("msg", ""), ("extra", {})):
         res.setdefault(k, v)
@@ -381,8 +386,9 @@ def main(argv=None) -> int:
         total["deliveries"] += a["deliveries"]
         total["nontrivial"] += a["nontrivial"]
         total["harness"].extend(a["harness"])
-        if len(total["samples"]) < 3:
-            total["samples"].extend(a["samples"])
+        total["samples"].extend(a["samples"])
+        total["samples"].sort(key=lambda x: x["run_index"])
+        del total["samples"][3:]
         for sig, v in a["viol"].items():
             cur = total["viol"].get(sig)
             if cur is None:
